@@ -312,6 +312,11 @@ class Ref:
         elif k == 'scalar_to_map':
             if node[0] == 's' and node[1] == TAGP + 'str':
                 node = ['m', pt.MAP, [[pt.s(op[1]), pt.s(node[2])]]]
+        elif k == 'seq_to_attrs':
+            if node[0] == 'q':
+                if len(node[2]) != len(op[1]):
+                    raise Reject('seasoning', 'expected %d items' % len(op[1]))
+                node = ['m', pt.MAP, [[pt.s(n), i] for n, i in zip(op[1], node[2])]]
         elif k == 'raise_if_has':
             if is_map and pt.has(node, op[1]):
                 raise Reject('seasoning', 'attribute %s not allowed' % op[1])
